@@ -1,5 +1,5 @@
 (* Props/C02.v — property theorems only. *)
-From YQ Require Import Base.Str Model.Node Model.Store Model.Eval Spec.Lens Proofs.LensProofs Proofs.AssignProofs.
+From YQ Require Import Base.Str Model.Node Model.Store Model.Eval Spec.Lens Proofs.LensProofs Proofs.AssignProofs Proofs.AssignPathProofs.
 From Coq Require Import ZArith.
 
 (* The update laws, for every simple path (keys and non-negative indices, of
@@ -29,11 +29,60 @@ Theorem C02_pads_with_null : forall i v items n',
 Proof. exact put_pads_with_null. Qed.
 Print Assumptions C02_pads_with_null.
 
-(* The tie between the evaluator model and the lens, proved (not sampled) for
-   key paths of any length: `.k1.k2...kn = scalar` on the evaluator leaves
-   exactly the document [put] describes (missing maps created, null re-typed).
-   Index steps, container values, |= and op= are tied by the correspondence
-   check only: partial. *)
+(* The tie between the evaluator model and the lens, proved (not sampled) for EVERY simple path: keys and
+   non-negative index literals, mixed, of any length, existing or to be created.  `p = scalar` on the evaluator
+   (writable traversal with vivification, null re-typing and null padding; read-only re-evaluation of the path in
+   the cross product; UpdateFrom) leaves exactly the document [put] describes, so put-get, get-put, put-put, frame
+   and padding above hold for the evaluator.  [estep] carries the text of each index literal with the number it
+   denotes ([step_ok]: Z_of_index text = that number, below the padding limit of the implementation).  Evaluating
+   an index literal allocates scratch roots; the document is root 0. *)
+Theorem C02_assign_is_put : forall p t v doc fuel,
+  p <> [] -> Forall step_ok p -> (length p + 4 <= fuel)%nat ->
+  forall n', put (List.map erase p) (Scalar t v) doc = Some n' ->
+  exists st', eval fuel (EAssign (pe p) (ELit t v)) false [] [(O, [])] (init_store doc) = Ok ([(O, [])], st')
+              /\ deref st' (O, []) = Some n'.
+Proof. exact assign_path_is_put. Qed.
+Print Assumptions C02_assign_is_put.
+
+(* `p |= r` at any simple path and for every body r: the path is created, r runs with the match as its context, and
+   the match receives r's FIRST result; no result leaves it alone. *)
+Theorem C02_update_first_result_or_none : forall p r doc f n1 pos,
+  p <> [] -> Forall step_ok p -> (length p + 2 <= f)%nat ->
+  vivp p doc = Some (n1, pos) ->
+  exists g,
+    (forall q qs st2 v,
+       eval f r false [] [(O, pos)] ([mkRoot None None n1] ++ g) = Ok (q :: qs, st2) ->
+       ptr_eqb (O, pos) q = false -> deref st2 q = Some v ->
+       eval (S f) (EUpdate (pe p) r) false [] [(O, [])] (init_store doc)
+       = Ok ([(O, [])], update st2 (O, pos) (fun _ => v)))
+    /\
+    (forall st2,
+       eval f r false [] [(O, pos)] ([mkRoot None None n1] ++ g) = Ok ([], st2) ->
+       eval (S f) (EUpdate (pe p) r) false [] [(O, [])] (init_store doc) = Ok ([(O, [])], st2)).
+Proof. exact update_path_results. Qed.
+Print Assumptions C02_update_first_result_or_none.
+
+(* [vivp] is [put]: the document in which r runs is the one [put] builds, with the old value still at the position *)
+Theorem C02_put_is_vivify_then_write : forall p v n,
+  put (List.map erase p) v n =
+  match vivp p n with Some (n1, pos) => Some (upd_at n1 pos (fun _ => v)) | None => None end.
+Proof. exact put_is_vivp. Qed.
+Print Assumptions C02_put_is_vivify_then_write.
+
+(* non-vacuity: `.a[2].b = 7` on {"a": [1]} pads, creates and assigns, on the lens and on the evaluator *)
+Example C02_path_example :
+  let p := [EK [97]; EI [50] 2; EK [98]] in
+  Forall step_ok p /\
+  put (List.map erase p) (Scalar TInt [55]) (Map [([97], Seq [(RIdx 0, Scalar TInt [49])])])
+  = Some (Map [([97], Seq [(RIdx 0, Scalar TInt [49]); (RIdx 1, null_node);
+                          (RIdx 2, Map [([98], Scalar TInt [55])])])]) /\
+  run (EAssign (pe p) (ELit TInt [55])) (Map [([97], Seq [(RIdx 0, Scalar TInt [49])])])
+  = tag_ok ++ ser_node (Map [([97], Seq [(RIdx 0, Scalar TInt [49]); (RIdx 1, null_node);
+                                        (RIdx 2, Map [([98], Scalar TInt [55])])])]) ++ [10].
+Proof. exact assign_path_example. Qed.
+
+(* The key-path special cases (Proofs/AssignProofs.v), kept because their statements are exact about the store.
+   Container values, multi-match left-hand sides and op= are tied by the correspondence check only. *)
 Theorem C02_assign_is_put_keys_partial : forall ks t v doc fuel,
   ks <> [] -> (length ks + 3 <= fuel)%nat -> no_wild ks ->
   forall n', put (List.map SKey ks) (Scalar t v) doc = Some n' ->
